@@ -44,6 +44,35 @@ def run(ctx):
                      f"selection reaches an effectful operation: {s.callee_text}()", s.call, path=res.path_to(clo, q))
             if not bad_w and not bad_c:
                 c.ob("R1", True, f, "pure", "no attribute write and no effectful engine call in this function", f.node)
+    # ---- R9 can(event) is exactly "the selection for the event is non-empty" ------------------------------------
+    # (a nominee that has no target and no actions still consumes the event and shadows its ancestors' handlers: can() must say yes)
+    from sa.util import expand_names as _xn
+    cn_ = p.method("BaseInterpreter", "can")
+    for v in VIEWS:
+        if p.method(v, "can").qualname != cn_.qualname:
+            c.ob("R9", False, p.method(v, "can"), "can-overridden", f"{v} overrides can(); rule must be re-derived", p.method(v, "can").node)
+    rets9 = [r_ for r_ in own_nodes(cn_.node) if isinstance(r_, ast.Return) and r_.value is not None and
+             not (isinstance(r_.value, ast.Constant) and r_.value.value is False)]
+    c.expect("R9", "answers of can()", len(rets9), 1, cn_, "can() never answers from the selection any more")
+    for r_ in rets9:
+        e = _xn(cn_, r_.value)
+        core = e
+        if isinstance(core, ast.Call) and isinstance(core.func, ast.Name) and core.func.id == "bool" and len(core.args) == 1:
+            core = core.args[0]
+        elif isinstance(core, ast.Compare) and len(core.ops) == 1:
+            l_, op_, r2 = core.left, core.ops[0], core.comparators[0]
+            if isinstance(l_, ast.Call) and isinstance(l_.func, ast.Name) and l_.func.id == "len" and isinstance(r2, ast.Constant) and \
+                    ((isinstance(op_, ast.Gt) and r2.value == 0) or (isinstance(op_, ast.GtE) and r2.value == 1) or (isinstance(op_, ast.NotEq) and r2.value == 0)):
+                core = l_.args[0]
+        if isinstance(core, ast.Name):
+            core = _xn(cn_, core)
+            if isinstance(core, ast.Name):
+                vals = [getattr(a_, "value", None) for a_ in assignments_to(cn_, core.id)]
+                core = vals[0] if len(vals) == 1 and vals[0] is not None else core
+        ok = isinstance(core, ast.Call) and isinstance(core.func, ast.Attribute) and core.func.attr == "_select_transitions" and dotted(core.func.value) == "self"
+        c.ob("R9", ok, cn_, "can-is-nonempty-selection", "can() is the truth value of the selection itself" if ok else
+             f"'{stmt_text(r_, 90)}' does not answer with 'the selection is non-empty': a nominee the extra condition filters out (no target, no actions, ...) still "
+             f"consumes the event in send() while can() says the event would not be handled", r_)
     # ---- R2 no-nominee path is a no-op -----------------------------------------
     for v in VIEWS:
         pe = roles(ctx, v).process_event
